@@ -10,6 +10,7 @@ use ark_bulletproofs::r1cs::*;
 use ark_bulletproofs::{BulletproofGens, PedersenGens};
 use ark_ec::AffineRepr;
 use ark_ff::{Field, One, Zero};
+use rand_core::SeedableRng;
 use std::collections::BTreeMap;
 
 pub struct Bases {
@@ -363,4 +364,68 @@ fn replay_plain_inner<G: AffineRepr + 'static>(shape: &Shape, err: &ErrPlan, see
 pub fn replay_json(shape: &Shape, err: &ErrPlan, seed: u64, cap_p: usize, cap_v: usize) -> serde_json::Value {
     let honest = err.con.is_empty() && err.gate.is_empty();
     serde_json::json!({"kind": "r1cs", "shape": shape_json(shape), "err": err, "cap_prover": cap_p, "cap_verifier": cap_v, "seed": seed, "expect_verify_ok": honest})
+}
+
+/// C02, concrete companion beyond the symbolic bound: (1) circuits with several hundred constraints in which two
+/// NEIGHBOURING rows are violated by opposite amounts (+e, -e) -- accepted only if the two rows share a weight; the
+/// pair is placed around every power of two up to 512 and at a few other positions; (2) the proof made from a
+/// violating assignment as the first / middle / last member of a batch whose other members are honest.
+pub fn c02_native_companion<G: AffineRepr + 'static>(seed: u64) -> Vec<(String, bool)> {
+    use crate::r1cs::Op;
+    let mut out = vec![];
+    let n_rows = 530usize;
+    let mut p1 = vec![Op::Commit, Op::Commit];
+    p1.extend(vec![Op::ConCommitted; n_rows]);
+    let mut wide = Shape::new("wide_constraints_only", &p1, &[]);
+    wide.lc_width = 2;
+    let mut accepted = vec![];
+    let mut tried = 0;
+    for p in [0usize, 1, 2, 3, 6, 7, 14, 15, 16, 30, 31, 32, 62, 63, 64, 126, 127, 128, 254, 255, 256, 257, 300, 510, 511, 512, 513, 528] {
+        let err = ErrPlan { con: vec![p, p + 1], gate: vec![] };
+        let mut model = std::collections::HashMap::new();
+        model.insert("err0".to_string(), "5".to_string());
+        model.insert("err1".to_string(), "-5".to_string());
+        let (p_ok, v_ok, hon) = replay_plain::<G>(&wide, &err, seed, 1, 1, model);
+        tried += 1;
+        if !p_ok || v_ok || hon != 2 {
+            accepted.push(format!("rows {} and {} (prove_ok {}, verify_ok {}, state {})", p, p + 1, p_ok, v_ok, hon));
+        }
+    }
+    out.push((format!("{} constraints, rows p and p+1 violated by +5 and -5 for {} positions p around the powers of two: every proof is rejected (accepted: {:?})", n_rows, tried, &accepted[..accepted.len().min(3)]), accepted.is_empty()));
+    // the same with a gate row pair: two-phase circuit with many multiply gates is out of reach here; gates are covered symbolically
+    // (2) batches
+    {
+        let shape = Shape::new("batch_member", &[Op::Commit, Op::AllocMul, Op::Con, Op::ConCommitted], &[]);
+        let pad = shape.padded();
+        let pc = pc_for::<G>("c02-batch", seed);
+        let bp = BulletproofGens::<G>::new(pad, 1);
+        let mk = |err: &ErrPlan, s: u64| {
+            let shr = new_shared::<G>(&shape, err, Box::new(PlainVals::<FOf<G>>::new(Default::default(), s)));
+            let (p, _) = prove_shape(&shape, &shr, &pc, &bp, s);
+            (shr, p)
+        };
+        let (h_shr, h_proof) = mk(&Default::default(), seed);
+        let mut bad = vec![];
+        for (what, err) in [("a violated linear constraint", ErrPlan { con: vec![1], gate: vec![] }), ("a violated gate", ErrPlan { con: vec![], gate: vec![(0, 2)] })] {
+            let (v_shr, v_proof) = mk(&err, seed + 1);
+            if let (Ok(hp), Ok(vp)) = (&h_proof, &v_proof) {
+                for (len, at) in [(1usize, 0usize), (2, 0), (2, 1), (3, 1), (3, 2), (5, 4)] {
+                    let forks: Vec<_> = (0..len).map(|i| fork_for_verifier(&shape, if i == at { &v_shr } else { &h_shr })).collect();
+                    let mut ts: Vec<merlin::Transcript> = (0..len).map(|_| new_verifier_transcript(&shape)).collect();
+                    let mut insts = vec![];
+                    for (i, vt) in ts.iter_mut().enumerate() {
+                        insts.push((build_verifier(&shape, &forks[i], vt), if i == at { vp } else { hp }));
+                    }
+                    let mut wr = rand_chacha::ChaChaRng::seed_from_u64(seed ^ 0xc02b);
+                    if batch_verify(&mut wr, insts, &pc, &bp).is_ok() {
+                        bad.push(format!("{} as member {} of {}", what, at, len));
+                    }
+                }
+            } else {
+                bad.push("prove".into());
+            }
+        }
+        out.push((format!("the proof made from a violating assignment is rejected as the first / middle / last member of batches of 1..5 (accepted: {:?})", bad), bad.is_empty()));
+    }
+    out
 }
